@@ -10,7 +10,8 @@ SEED = int(os.environ.get('VERIF_SEED', '0') or 0)
 TYPES = [None, 'text', 'checkbox', 'radio', 'submit', 'number', 'range', 'date', 'TEXT', 'search', 'email', 'password',
          'tel', 'url', 'button', 'image', 'week', 'time', 'month', 'datetime-local', 'color', 'file', 'reset', 'Radio',
          'SUBMIT', '', 'hidden', 'HIDDEN']
-TYPES_W = TYPES + ['radio'] * 9 + ['checkbox'] * 3 + ['submit'] * 4 + ['number', 'date', 'text'] * 2 + ['hidden'] * 4
+TYPES_W = TYPES + ['radio'] * 9 + ['checkbox'] * 3 + ['submit'] * 4 + ['number', 'date', 'text'] * 2 + ['hidden'] * 4 + \
+    ['number', 'range', 'time', 'week', 'month', 'datetime-local', 'Number'] * 2
 RANGE_TYPES = ('date', 'month', 'week', 'time', 'datetime-local', 'number', 'range')
 
 
@@ -40,7 +41,8 @@ def gen_doc(r):
             t = mk('input', parent, type=ty, checked=flag(), disabled=flag(0.15), readonly=flag(0.15), required=flag(),
                    placeholder=r.choice([None, None, '', 'p']), value=r.choice([None, None, '', 'v', '3', '9', '2001-01-01']),
                    name=r.choice([None, 'g', 'g', 'h', '']), indeterminate=flag(0.15),
-                   min=r.choice([None, None, '1', 'x', '2000-01-01']), max=r.choice([None, None, '5', '', '2002-01-01']))
+                   min=r.choice([None, None, '1', 'x', '2000-01-01', '+1', ' 1', '1.', '.5', '1e1', '12:30', '2000-W05']),
+                   max=r.choice([None, None, '5', '', '2002-01-01', 'inf', '5_0', '٥', '-.5e-1', '2002-02-30', '2002-13', '24:00']))
             if r.random() < 0.2:
                 t.attrs['dir'] = r.choice(['auto', 'rtl', 'ltr', 'bogus'])
         elif k < 0.6:
@@ -326,12 +328,29 @@ def ref_placeholder(els):
     return out
 
 
+def ref_valid_bound(ty, v):
+    """Is v a valid HTML number / date / month / week / time / local date-time string?  (hand-written scanners and the
+    calendar reference of the C18 harness, not the library's parser)"""
+    from harness import c18 as h18
+    if v is None:
+        return False
+    if ty in ('number', 'range'):
+        return h18.ref_num(v) is not None
+    shape = h18.ref_shape(ty, v)
+    if shape is None:
+        return False
+    yd, f = shape
+    if ty == 'week' and h18._legacy53(h18._num(yd), f[0][0] * 10 + f[0][1]):
+        return True       # known finding of C18 (week 53 leniency), reported there
+    return h18.ref_parse(ty, yd, f) is not None
+
+
 def ref_range_domain(els):
     out = set()
     for e in els:
         if is_html(e) and tag(e) == 'input' and low(attr(e, 'type')) in RANGE_TYPES:
             ty = low(attr(e, 'type'))
-            if cm.Inputs.parse_value(ty, attr(e, 'min')) is not None or cm.Inputs.parse_value(ty, attr(e, 'max')) is not None:
+            if ref_valid_bound(ty, attr(e, 'min')) or ref_valid_bound(ty, attr(e, 'max')):
                 out.add(id(e))
     return out
 
